@@ -203,6 +203,18 @@ class is_flag_active_visitor<Flag, flag_and>""")]),
                 {
                     const auto active_state_id = *it;""")]),
  dict(name='stablesort-back11-sort', prop='C05', rule='C04.queue-ops', edits=[(B11, """                std::stable_sort(""", """                std::sort(""")]),
+ dict(name='functor-and-3arg-or', prop='C14', rule='C14.functors', edits=[('include/boost/msm/front/operator.hpp', """        return (T1()(evt,fsm,state) && T2()(evt,fsm,state));""", """        return (T1()(evt,fsm,state) || T2()(evt,fsm,state));""")]),
+ dict(name='functor-sequence-reversed', prop='C14', rule='C14.functors', edits=[('include/boost/msm/front/functor_row.hpp', """            mpl::for_each<Sequence,boost::msm::wrap< ::boost::mpl::placeholders::_1> >
+                (Call2<EVT,FSM,SourceState,TargetState>(evt,fsm,src,tgt));""", """            mpl::for_each<typename ::boost::mpl::reverse<Sequence>::type,boost::msm::wrap< ::boost::mpl::placeholders::_1> >
+                (Call2<EVT,FSM,SourceState,TargetState>(evt,fsm,src,tgt));"""),
+      ('include/boost/msm/front/functor_row.hpp', "#include <boost/mpl/for_each.hpp>", "#include <boost/mpl/for_each.hpp>\n#include <boost/mpl/reverse.hpp>")]),
+ dict(name='functor-call2-swapped-states', prop='C14', rule='C14.functors', edits=[('include/boost/msm/front/functor_row.hpp', """            FCT()(evt_,fsm_,src_,tgt_);""", """            FCT()(evt_,fsm_,tgt_,src_);""")]),
+ dict(name='gate-back11-terminate-all-regions', prop='C11', rule='C11.gate', edits=[(B11, """        if (is_flag_active< ::boost::msm::TerminateFlag>())
+            return true;""", """        if (is_flag_active< ::boost::msm::TerminateFlag, Flag_AND>())
+            return true;""")]),
+ dict(name='ctrlblock-heap-copy-shares-pointer', prop='C20', rule='C20.block', edits=[('include/boost/msm/backmp11/detail/basic_polymorphic.hpp', """            *static_cast<T**>(dest) = new T(*typed_src);""", """            *static_cast<T**>(dest) = const_cast<T*>(typed_src);""")]),
+ dict(name='ctrlblock-inline-delete', prop='C20', rule='C20.block', edits=[('include/boost/msm/backmp11/detail/basic_polymorphic.hpp', """                static_cast<T*>(ptr)->~T();""", """                delete static_cast<T*>(ptr);""")]),
+ dict(name='ctrlblock-trivial-size-of-pointer', prop='C20', rule='C20.block', edits=[('include/boost/msm/backmp11/detail/basic_polymorphic.hpp', """                                               sizeof(T), true};""", """                                               sizeof(T*), true};""")]),
  # ---- behaviour-preserving edits: the checks must stay silent
  dict(name='refactor-rename-local', prop='C02', refactor=True, edits=[(B, """            HandledEnum res = ROW::action_call(fsm,evt,
                              ::boost::fusion::at_key<current_state_type>(fsm.m_substate_list),
